@@ -25,8 +25,11 @@ import (
 	"math/rand"
 	"os"
 	"runtime/debug"
+	"runtime/pprof"
 	"sort"
 	"strings"
+	"sync/atomic"
+	"time"
 
 	"github.com/idena-network/idena-go/blockchain/types"
 	"github.com/idena-network/idena-go/common"
@@ -181,7 +184,7 @@ func longChain(seed int64, n int) *canon {
 				delete(online, k)
 			}
 		}
-		keep := rnd.Intn(3) == 0
+		keep := rnd.Intn(3) == 0 || h == uint64(n) // a serving node always holds the certificate of its head
 		if h > 3 && rnd.Intn(7) == 0 {
 			c.add(true, nil, keep)
 		} else {
@@ -237,7 +240,7 @@ func longChain(seed int64, n int) *canon {
 					delegated[k] = true
 				}
 			}
-			c.add(false, txs, keep || h == uint64(n))
+			c.add(false, txs, keep)
 		}
 		if copyAt[c.head()] {
 			c.saveCopy()
@@ -257,7 +260,25 @@ type runCtx struct {
 	kind string
 }
 
+var lastProgress int64 // unix nanoseconds of the last scenario start (watchdog)
+
+// watchdog: a scenario that does not finish is a harness failure (exit 3 with the goroutine dump), not a verdict
+func watchdog() {
+	atomic.StoreInt64(&lastProgress, time.Now().UnixNano())
+	go func() {
+		for {
+			time.Sleep(2 * time.Second)
+			if time.Since(time.Unix(0, atomic.LoadInt64(&lastProgress))) > 150*time.Second {
+				fmt.Println("driver: scenario stuck for 150 s, goroutines:")
+				pprof.Lookup("goroutine").WriteTo(os.Stdout, 1)
+				os.Exit(3)
+			}
+		}
+	}()
+}
+
 func (r *runCtx) chainLine(sid string, sc *scenario, L, S, T uint64) {
+	atomic.StoreInt64(&lastProgress, time.Now().UnixNano())
 	var shape []*blockInfo
 	for h := L + 1; h <= T; h++ {
 		bi := *r.c.info[h]
@@ -653,6 +674,7 @@ func main() {
 	tail := flag.Int("tail", 3, "blocks applied normally after the switch")
 	flag.Parse()
 	defer sim.Cleanup()
+	watchdog()
 	seed := tr.Seed()
 	out := tr.Create(*outPath)
 	defer out.Close()
